@@ -1,1 +1,207 @@
-use crate::Ctx; pub fn run(_cx: &mut Ctx) {}
+//! Domain RESP: `CoapResponse::new`, `CoapRequest::from_packet`, `apply_from_error` – C07.
+//!   RESP new <pkt>                      -> none | some <dump> | panic
+//!   RESP err <code|none> <msghex> <pkt> -> <bool> <dump|none> | panic
+use crate::pkt::{dump, CodeSpec, PktSpec};
+use crate::tbl::header_first_byte;
+use crate::{guarded, hex, Ctx, Rng};
+use coap_lite::error::HandlingError;
+use coap_lite::{CoapRequest, CoapResponse, MessageClass, Packet, ResponseType};
+
+fn flat(p: &Packet) -> Vec<(u16, Vec<u8>)> {
+    let mut o = vec![];
+    for (n, l) in p.options() {
+        for v in l.iter() {
+            o.push((*n, v.clone()));
+        }
+    }
+    o
+}
+
+fn check_new(cx: &mut Ctx, line: &str, spec: &PktSpec, r: &Option<Option<Packet>>) {
+    if spec.tok.len() > 15 {
+        return; // building the request itself panics (documented assertion)
+    }
+    let typ = (spec.vtt >> 4) & 3;
+    match r {
+        None => cx.oracle_fail("C07", line, "preparing a response panicked"),
+        Some(None) => {
+            if typ < 2 {
+                cx.oracle_fail("C07", line, "no response prepared for a CON/NON request");
+            }
+        }
+        Some(Some(q)) => {
+            if typ >= 2 {
+                cx.oracle_fail("C07", line, "response prepared for an ACK/RST message");
+                return;
+            }
+            let want_vtt = 0x40 | (if typ == 0 { 2u8 } else { 1u8 }) << 4 | (spec.vtt & 15);
+            let ok = header_first_byte(&q.header) == want_vtt
+                && (spec.vtt & 15) as usize == spec.tok.len()
+                && q.header.message_id == spec.mid
+                && q.get_token() == &spec.tok[..]
+                && u8::from(q.header.code) == 0x45
+                && flat(q).is_empty()
+                && q.options().len() == 0
+                && q.payload.is_empty();
+            // when the request's TKL nibble disagrees with its token the response follows the token
+            let ok2 = header_first_byte(&q.header) == (0x40 | (if typ == 0 { 2u8 } else { 1u8 }) << 4 | spec.tok.len() as u8)
+                && q.header.message_id == spec.mid
+                && q.get_token() == &spec.tok[..]
+                && u8::from(q.header.code) == 0x45
+                && q.options().len() == 0
+                && q.payload.is_empty();
+            if !(ok || ok2) {
+                cx.oracle_fail("C07", line, &format!("prepared response is not correlated with the request: {}", dump(q)));
+            }
+        }
+    }
+}
+
+fn case_new(cx: &mut Ctx, spec: &PktSpec) {
+    let line = format!("RESP new {}", spec.line());
+    let r = guarded(|| {
+        let p = spec.build();
+        CoapResponse::new(&p).map(|r| r.message)
+    });
+    let s = match &r {
+        None => "panic".to_string(),
+        Some(None) => "none".to_string(),
+        Some(Some(q)) => format!("some {}", dump(q)),
+    };
+    cx.case(&line, &s);
+    cx.nontrivial(&line);
+    check_new(cx, &line, spec, &r);
+}
+
+fn case_err(cx: &mut Ctx, spec: &PktSpec, code: Option<u8>, msg: &[u8], pre: &[(u16, Vec<u8>)]) {
+    // `pre`: options/payload the application already put on the reply
+    let pretok = pre.iter().map(|(n, v)| format!("{}:{}", n, hex(v))).collect::<Vec<_>>().join(",");
+    let line = format!(
+        "RESP err {} {} {} {}",
+        code.map(|c| c.to_string()).unwrap_or("none".into()),
+        hex(msg),
+        if pretok.is_empty() { "_".to_string() } else { pretok },
+        spec.line()
+    );
+    let msg_s = String::from_utf8_lossy(msg).to_string();
+    let r = guarded(|| {
+        let p = spec.build();
+        let mut req: CoapRequest<u8> = CoapRequest::from_packet(p, 7);
+        if let Some(resp) = req.response.as_mut() {
+            for (n, v) in pre {
+                resp.message.add_option(coap_lite::CoapOption::from(*n), v.clone());
+            }
+        }
+        let before = req.response.clone();
+        let e = match code {
+            None => HandlingError::not_handled(),
+            Some(c) => match MessageClass::from(c) {
+                MessageClass::Response(rt) => HandlingError::with_code(rt, msg_s.clone()),
+                _ => HandlingError::with_code(ResponseType::UnKnown, msg_s.clone()),
+            },
+        };
+        let ok = req.apply_from_error(e);
+        (ok, before, req.response)
+    });
+    match &r {
+        None => {
+            cx.case(&line, "panic");
+            if spec.tok.len() <= 15 {
+                cx.oracle_fail("C07", &line, "apply_from_error panicked");
+            }
+        }
+        Some((ok, before, after)) => {
+            cx.case(&line, &format!("{} {}", ok, after.as_ref().map(|a| dump(&a.message)).unwrap_or("none".into())));
+            cx.nontrivial(&line);
+            let expect_ok = before.is_some() && code.is_some();
+            if *ok != expect_ok {
+                cx.oracle_fail("C07", &line, &format!("apply_from_error returned {} (response present: {}, code present: {})", ok, before.is_some(), code.is_some()));
+            }
+            match (before, after) {
+                (Some(b), Some(a)) => {
+                    let b = &b.message;
+                    let a = &a.message;
+                    let corr = header_first_byte(&a.header) == header_first_byte(&b.header) && a.header.message_id == b.header.message_id && a.get_token() == b.get_token();
+                    if !corr {
+                        cx.oracle_fail("C07", &line, "turning an error into a reply changed type/message id/token");
+                    }
+                    if expect_ok {
+                        let want_code = match MessageClass::from(code.unwrap()) {
+                            MessageClass::Response(_) => code.unwrap(),
+                            _ => 0xFF,
+                        };
+                        let others_same = flat(a).into_iter().filter(|(n, _)| *n != 12).collect::<Vec<_>>() == flat(b).into_iter().filter(|(n, _)| *n != 12).collect::<Vec<_>>();
+                        let cf = a.get_option(coap_lite::CoapOption::ContentFormat).map(|l| l.iter().cloned().collect::<Vec<_>>());
+                        if u8::from(a.header.code) != want_code || a.payload != msg_s.as_bytes() || !others_same || cf != Some(vec![vec![]]) {
+                            cx.oracle_fail("C07", &line, &format!("error reply has wrong code/payload/content-format or touched other options: {}", dump(a)));
+                        }
+                    } else if a != b {
+                        cx.oracle_fail("C07", &line, "a code-less error modified the prepared reply");
+                    }
+                }
+                (None, None) => {}
+                _ => cx.oracle_fail("C07", &line, "response appeared/disappeared"),
+            }
+        }
+    }
+}
+
+pub fn run(cx: &mut Ctx) {
+    let thorough = cx.tier_thorough;
+    let mut rng = Rng(cx.seed ^ 0x52455350);
+    let mids: Vec<u16> = if thorough { (0..=65535u16).collect() } else { vec![0, 1, 255, 256, 0x1234, 65534, 65535] };
+    // all 4 types x 4 versions x tkl 0..8 x mids
+    for ver in 0..4u8 {
+        for typ in 0..4u8 {
+            for tkl in 0..=8usize {
+                for &mid in &mids {
+                    if thorough && !(tkl == 0 || tkl == 8 || mid % 4099 == 0) && mid > 300 && mid < 65000 {
+                        continue;
+                    }
+                    let spec = PktSpec {
+                        vtt: ver << 6 | typ << 4 | tkl as u8,
+                        code: CodeSpec::Byte(*rng.pick(&[0u8, 1, 2, 3, 4, 0x45, 0x84, 0xFF])),
+                        mid,
+                        tok: rng.bytes(tkl),
+                        opts: if rng.chance(1, 2) { vec![(11, b"x".to_vec()), (60, vec![1, 2])] } else { vec![] },
+                        payload: { let n = *rng.pick(&[0usize, 0, 3, 20]); rng.bytes(n) },
+                    };
+                    case_new(cx, &spec);
+                }
+            }
+        }
+    }
+    cx.exhaustive.push(format!("4 versions x 4 types x token length 0..8 x {} message ids", mids.len()));
+    // all first bytes incl. inconsistent TKL nibble, long tokens
+    for vtt in 0..=255u8 {
+        for toklen in [(vtt & 15) as usize, 0, 9, 15, 16] {
+            let spec = PktSpec { vtt, code: CodeSpec::Byte(1), mid: 77, tok: rng.bytes(toklen), opts: vec![], payload: vec![1] };
+            case_new(cx, &spec);
+        }
+    }
+    // random mids
+    let n = if thorough { 20000 } else { 3000 };
+    for _ in 0..n {
+        let tkl = rng.below(9) as usize;
+        let spec = PktSpec { vtt: (rng.below(16) as u8) << 4 | tkl as u8, code: CodeSpec::Byte(rng.below(256) as u8), mid: rng.below(65536) as u16, tok: rng.bytes(tkl), opts: vec![(rng.below(300) as u16, rng.bytes(3))], payload: rng.bytes(5) };
+        case_new(cx, &spec);
+    }
+    // error application: every response code byte and none; all four types; pre-existing reply options
+    let msgs: [&[u8]; 4] = [b"", b"Not found", b"e", "f\u{e9}\u{20ac}".as_bytes()];
+    for typ in 0..4u8 {
+        for code in (0..=255u16).map(|c| Some(c as u8)).chain(std::iter::once(None)) {
+            for (i, m) in msgs.iter().enumerate() {
+                let tkl = (i * 3) % 9;
+                let spec = PktSpec { vtt: 0x40 | typ << 4 | tkl as u8, code: CodeSpec::Byte(2), mid: 1000 + i as u16, tok: rng.bytes(tkl), opts: vec![(11, b"r".to_vec())], payload: b"body".to_vec() };
+                let pre: Vec<(u16, Vec<u8>)> = match i {
+                    0 => vec![],
+                    1 => vec![(12, vec![50])],
+                    2 => vec![(12, vec![50]), (12, vec![60]), (14, vec![60])],
+                    _ => vec![(4, vec![1, 2]), (27, vec![0x0e])],
+                };
+                case_err(cx, &spec, code, m, &pre);
+            }
+        }
+    }
+    cx.exhaustive.push("apply_from_error over every code byte / no code x 4 message types x pre-set reply options".into());
+}
